@@ -715,10 +715,16 @@ int rename(const char *from, const char *to)
         errno = r->err;
         return -1;
     }
+    if (r && r->action == A_KILL) {
+        r->fired++;
+        do_kill("rename", norm(to), r);     /* the process dies before the new name exists */
+    }
     res = real_rename(from, to);
     e = errno;
+    if (r && r->action == A_KILLAFTER) r->fired++;
     log_event("rename", norm(to), 0, res, res < 0 ? e : 0, r ? r->id : NULL);
     pthread_mutex_unlock(&lock);
+    if (r && r->action == A_KILLAFTER) _exit(137);   /* ... or right after it does */
     errno = e;
     return res;
 }
